@@ -385,6 +385,75 @@ func hugeIntervalPart() *cli.Part {
 	}}
 }
 
+// handoverPart: two Sequence objects on one key that take turns through clean Releases (an object is only used while
+// the other one holds no lease); every history of A.Next / A.Release / B.Next / B.Release up to depth 8: the numbers
+// handed out are 0, 1, 2, ... whichever object serves them.
+func handoverPart() *cli.Part {
+	return &cli.Part{Name: "handover", Run: func(c *cli.Ctx) *cli.PartResult {
+		pr := &cli.PartResult{Engine: "H", Exhaustive: true}
+		names := []string{"A.Next", "A.Release", "B.Next", "B.Release"}
+		reported := false
+		for _, intervals := range [][2]uint64{{1, 1}, {2, 3}, {3, 1}} {
+			var rec func(hist []int)
+			rec = func(hist []int) {
+				pr.Transitions++
+				st := mapdb.NewMapDB()
+				objs := [2]*kvstore.Sequence{}
+				for i := range objs {
+					objs[i], _ = kvstore.NewSequence(st, seqKey, intervals[i])
+				}
+				holds := [2]bool{} // the object may hold a lease (used since its last Release)
+				want := uint64(0)
+				ok := true
+				for _, op := range hist {
+					o, isNext := op/2, op%2 == 0
+					if isNext {
+						if holds[1-o] {
+							ok = false // not a clean hand-over: outside this part
+							break
+						}
+						n, err := objs[o].Next()
+						holds[o] = true
+						if (err != nil || n != want) && !reported {
+							reported = true
+							var hn []string
+							for _, h := range hist {
+								hn = append(hn, names[h])
+							}
+							raw, _ := json.Marshal(map[string]any{"intervals": intervals, "history": hn})
+							pr.Violations = append(pr.Violations, &cli.Violation{Part: "handover", Engine: "H", Signature: "handover|Next|wrong-number",
+								Message: fmt.Sprintf("intervals A=%d B=%d, history %v: Next returned (%d, %v); 0..%d were handed out and every hand-over was a clean Release, so %d is due", intervals[0], intervals[1], hn, n, err, int64(want)-1, want), Replay: raw})
+						}
+						if err != nil || n != want {
+							return
+						}
+						want++
+					} else {
+						if err := objs[o].Release(); err != nil {
+							panic(err)
+						}
+						holds[o] = false
+					}
+				}
+				if !ok {
+					return
+				}
+				pr.Traces++
+				if len(hist) == 8 {
+					return
+				}
+				for op := 0; op < 4; op++ {
+					rec(append(append([]int{}, hist...), op))
+				}
+			}
+			rec(nil)
+		}
+		pr.States, pr.Evaluations, pr.Distinct = pr.Traces, pr.Transitions, pr.Traces
+		pr.Samples = []any{"A.Next, A.Next, A.Release, B.Next, B.Release, A.Next -> 0, 1, 2, 3"}
+		return pr
+	}}
+}
+
 func main() {
 	ops := alphabet()
 	var names []string
@@ -400,11 +469,11 @@ func main() {
 	})
 	part.Shards, part.ShardsQuick = 11, 11
 	cli.Main(&cli.Property{
-		ID: "C07", Level: "fault_enumeration", Scenarios: scenarios(), Parts: []*cli.Part{part, hugeIntervalPart()},
+		ID: "C07", Level: "fault_enumeration", Scenarios: scenarios(), Parts: []*cli.Part{part, hugeIntervalPart(), handoverPart()},
 		QuickBound: 2, ThoroughBound: 3, QuickUnbounded: true, ThoroughUnbounded: true, Cache: true, ReleasePoints: true, QuickSecs: 45, ThoroughSecs: 600,
 		RaceHB:      &cli.RaceHB{QuickBound: 1, ThoroughBound: 2},
 		Rule:        "H: every history up to depth 7 (thorough 8) over Next, Release, Restart(interval 1..3) in which every Next/Release is additionally run with the process stopping before or after its 1st/2nd store call (the object is then abandoned and only Restart is possible) and with its 1st/2nd store call failing (the object stays in use); oracle: returned numbers strictly increase over the life of the store and the gap between consecutive numbers is at most the sum of the intervals of the objects crashed/abandoned without Release in between (0 after clean Releases). S: all interleavings of 2-3 threads x 2 Next calls on one Sequence; distinct = distinct histories / observation logs",
-		Assumptions: []string{"one live Sequence object per key at a time; an abandoned object is never used again", "store calls do not fail other than by the process stopping"},
+		Assumptions: []string{"one Sequence object per key holds a lease at a time (crash histories: an abandoned object is never used again; hand-over part: two objects take turns through clean Releases)", "store calls do not fail other than by the process stopping"},
 		NotReached:  []string{"intervals above 3"},
 	})
 }
